@@ -244,7 +244,7 @@ PROPS["C16"] = {
 
 RULES["C17"] = (_SEQ + "x a transformation admissible for the drawn test: complement (all but rank / linear complexity; monobit Q -> 1-Q; longest run of ones <-> zeros), reverse (monobit, runs, runs distribution, autocorrelation, binary derivative, "
                 "overlapping, approximate entropy; cumulative sums forward <-> backward), cyclic rotation by 1 / n-1 / n/2 / a drawn amount (overlapping, approximate entropy), permutation of whole blocks + rewrite of the discarded tail "
-                "(block frequency, poker, longest run, rank, linear complexity; at least 3 blocks); sweep: every (test, parameter, transformation) at 20000 and 10^6+3 bits. oracle: metamorphic equality within 1e-9. "
+                "(block frequency, poker, longest run, rank, linear complexity; at least 3 blocks); sweep: every (test, parameter, transformation) at 20000, 2^16+1, 2*2^16+3 and 10^6+3 bits. oracle: metamorphic equality within 2e-8 (two results that each meet the 1e-8 allowance of C01-C05 can differ by that much). "
                 "non-trivial: transformed sequence differs from the original and P inside (1e-12,1-1e-12). distinct: hash of the case JSON.")
 PROPS["C17"] = {
     "level": "exploration",
